@@ -154,15 +154,23 @@ theorem C11_order (fs fs' : List File) (hp : fs.Perm fs') (hd : distinctFragment
     so a derived layer whose document is added before its parent's document gets the same result -/
 theorem C11_order_effective (fs fs' : List File) (hp : fs.Perm fs') (hd : distinctFragments fs) (db db' : Db)
     (h : processAll fs = .ok db) (h' : processAll fs' = .ok db') (raw : Nat → Option RawLayer) (fuel : Nat)
-    (k : String × String) :
+    (k : Key) :
     effectiveComparams db raw fuel k = effectiveComparams db' raw fuel k ∧
     effectiveObjects db raw fuel k = effectiveObjects db' raw fuel k :=
   effective_order fs fs' hp hd db db' h h' raw fuel k
 
 example : distinctFragments exLayerFiles ∧ exLayerFiles.Perm exLayerFiles.reverse ∧
-    exTags (processAll exLayerFiles) ("V", "e") = some [20, 11, 21] ∧
-    exTags (processAll exLayerFiles.reverse) ("V", "e") = some [20, 11, 21] :=
+    exTags (processAll exLayerFiles) (("V", .container), "e") = some [20, 11, 21] ∧
+    exTags (processAll exLayerFiles.reverse) (("V", .container), "e") = some [20, 11, 21] :=
   ⟨by unfold distinctFragments; decide, (List.reverse_perm _).symm, by decide, by decide⟩
+
+/-- round 7 — namesake documents are inside the theorem: a container, a comparam subset and a comparam spec that share
+    the short name `N` are pairwise distinct fragments (their short names are not distinct); in both orders all three
+    documents are kept -/
+example : distinctFragments exNamesakes ∧ ¬ (exNamesakes.map (·.frag)).Nodup ∧
+    processAll exNamesakes = processAll exNamesakes.reverse ∧
+    (processAll exNamesakes).toOption.map (fun db => (db.dlcs.length, db.subsets.length, db.specs.length)) = some (1, 1, 1) :=
+  ⟨by unfold distinctFragments; decide, by decide, by rfl, by rfl⟩
 
 /-- when loading fails: exactly when two files disagree about the model version — a property of the set of files -/
 theorem C11_order_error_iff (fs : List File) :
